@@ -735,6 +735,7 @@ func (e *SpecEnv) quant(kind string, x *ast.CallExpr) T {
 			}
 			sort := e.g.sortOf(t)
 			bvq := quote(fmt.Sprintf("%s!q%d", id.Name, e.g.nextQ()))
+			e.g.noteBound(bvq, sort)
 			bound := append(append([]string{}, inner.bound...), bvq)
 			inner = inner.with(id.Name, mk(bvq, sort, t))
 			inner.bound = bound
@@ -789,6 +790,7 @@ func (e *SpecEnv) quant(kind string, x *ast.CallExpr) T {
 	e.depth++
 	bv := fmt.Sprintf("%s!q%d", id.Name, e.g.nextQ())
 	bvq := quote(bv)
+	e.g.noteBound(bvq, "Int")
 	inner := e.with(id.Name, mk(bvq, "Int", types.Typ[types.Int]))
 	inner.bound = append(append([]string{}, e.bound...), bvq)
 	body := inner.eval(x.Args[3])
@@ -876,6 +878,17 @@ func (e *SpecEnv) call(x *ast.CallExpr) T {
 					ref = slBase(v.S)
 				}
 				return boolT(sAnd(sLe(e.old.next, ref), sLt(ref, e.cur.next)))
+			case "seqof":
+				// seqof(s): the elements of slice s as a mathematical sequence (a value: index ->
+				// element), independent of later changes of the heap
+				v := e.eval(x.Args[0])
+				sl, ok := v.GT.Underlying().(*types.Slice)
+				if !ok {
+					specFail("seqof() of a non-slice")
+				}
+				arr, es := e.g.elemsArr(sl.Elem())
+				inner := sel(e.g.arr(e.cur, arr, es), slBase(v.S))
+				return mk(app(e.g.shiftFn(es), inner, slOff(v.S)), es, types.NewMap(types.Typ[types.Int], sl.Elem()))
 			case "storage":
 				// storage(s): the whole backing array of slice s as one value (== compares it)
 				v := e.eval(x.Args[0])
@@ -957,6 +970,11 @@ func (e *SpecEnv) call(x *ast.CallExpr) T {
 				v := e.eval(x.Args[0])
 				t := e.resolveType(x.Args[1])
 				return boolT(sEq(app("tagOf", v.S), g.typeTag(t)))
+			case "implements":
+				// implements(x, I): x is non-nil and its dynamic type implements interface I
+				v := e.eval(x.Args[0])
+				t := e.resolveType(x.Args[1])
+				return boolT(g.implements(v.S, t))
 			case "held":
 				return boolT("true") // lock-set facts are checked structurally (see exec)
 			}
@@ -1078,7 +1096,15 @@ func (g *Gen) applyFuncValue(fv string, sig *types.Signature, args []T) T {
 		rt = sig.Results().At(0).Type()
 		rs = g.sortOf(rt)
 	}
-	name := "callfn:" + typeKey(sig)
+	// the name depends on parameter and result types only (not on parameter names)
+	var pts []string
+	for i := 0; i < sig.Params().Len(); i++ {
+		pts = append(pts, typeKey(sig.Params().At(i).Type()))
+	}
+	name := "callfn:func(" + strings.Join(pts, ",") + ")"
+	for i := 0; i < sig.Results().Len(); i++ {
+		name += " " + typeKey(sig.Results().At(i).Type())
+	}
 	sorts := []Sort{"Int"}
 	strs := []string{fv}
 	for _, a := range args {
@@ -1213,8 +1239,10 @@ func (e *SpecEnv) applyPredT(p *Pred, as []T) T {
 		}
 		g.axiomDone[key] = true
 		g.axiomLog = append(g.axiomLog, key)
+		g.globalMode++
 		v := aenv.eval(ax.Expr)
 		g.assert(v.S)
+		g.globalMode--
 	}
 	return res
 }
